@@ -980,3 +980,119 @@ func FaultProgram(t *rapid.T, p Profile) *Case {
 	b.Finish(c)
 	return c
 }
+
+// VIProgram draws a program for the value-independence relation of C12: the
+// registers are partitioned into control/address registers and data registers.
+// Data registers never feed a branch, an address or a divisor; loads only write
+// data registers; control registers are computed from control registers only.
+// It returns the case and the list of data registers, whose initial values may
+// be changed without changing the executed path or the accessed addresses.
+func VIProgram(t *rapid.T, p Profile) (*Case, []int) {
+	b, c := NewBuilder(t, p)
+	if len(b.pool) < 3 {
+		b.pool = append(b.pool, 13, 14, 15)
+	}
+	ctl := b.pool[:2]
+	data := b.pool[2:]
+	pick := func(rs []int, label string) int { return rs[rapid.IntRange(0, len(rs)-1).Draw(t, label)] }
+	anyReg := func(label string) int {
+		if rapid.Bool().Draw(t, label+"c") {
+			return pick(ctl, label)
+		}
+		return pick(data, label)
+	}
+	dataAlu := func() {
+		switch rapid.IntRange(0, 2).Draw(t, "dk") {
+		case 0:
+			b.emit(ref.Ins{Op: rapid.SampledFrom(aluR).Draw(t, "op"), Rd: pick(data, "rd"), Rs1: anyReg("rs1"), Rs2: anyReg("rs2")})
+		case 1:
+			b.emit(ref.Ins{Op: rapid.SampledFrom(aluI).Draw(t, "op"), Rd: pick(data, "rd"), Rs1: anyReg("rs1"), Imm: Value().Draw(t, "imm")})
+		default:
+			b.emit(ref.Ins{Op: "mv", Rd: pick(data, "rd"), Rs1: anyReg("rs1")})
+		}
+	}
+	ctlAlu := func() {
+		switch rapid.IntRange(0, 2).Draw(t, "ck") {
+		case 0:
+			b.emit(ref.Ins{Op: rapid.SampledFrom([]string{"add", "sub", "xor", "and", "or"}).Draw(t, "op"), Rd: pick(ctl, "rd"), Rs1: pick(ctl, "rs1"), Rs2: pick(ctl, "rs2")})
+		case 1:
+			b.emit(ref.Ins{Op: "addi", Rd: pick(ctl, "rd"), Rs1: pick(ctl, "rs1"), Imm: rapid.Int32Range(-64, 64).Draw(t, "imm")})
+		default:
+			b.emit(ref.Ins{Op: "li", Rd: pick(ctl, "rd"), Imm: Value().Draw(t, "imm")})
+		}
+	}
+	mem := func(load bool) {
+		st := b.State()
+		if st.Err != nil {
+			return
+		}
+		var op string
+		if load {
+			op = b.memOp(loadOps)
+		} else {
+			op = b.memOp(storeOps)
+		}
+		ea := b.addr(ref.AccessSize(op), "ea")
+		base := pick(ctl, "base")
+		if rapid.IntRange(0, 2).Draw(t, "zb") == 0 {
+			base = 0
+		}
+		off := ea - st.Reg[base]
+		if load {
+			b.emit(ref.Ins{Op: op, Rd: pick(data, "rd"), Rs1: base, Imm: off})
+		} else {
+			b.emit(ref.Ins{Op: op, Rs2: anyReg("src"), Rs1: base, Imm: off})
+		}
+	}
+	target := rapid.IntRange(p.MinLen, p.MaxLen).Draw(t, "len")
+	for b.Len() < target {
+		switch rapid.IntRange(0, 9).Draw(t, "vi") {
+		case 0, 1, 2:
+			dataAlu()
+		case 3:
+			ctlAlu()
+		case 4, 5:
+			mem(true)
+		case 6:
+			mem(false)
+		case 7:
+			// forward branch on control registers over data code
+			st := b.State()
+			if st.Err != nil {
+				continue
+			}
+			in := ref.Ins{Op: rapid.SampledFrom(condOps).Draw(t, "cond"), Rs1: pick(ctl, "rs1"), Rs2: pick(ctl, "rs2")}
+			if ref.Shape(in.Op) == ref.ShapeBr1 {
+				in.Rs2 = 0
+			}
+			l := b.label()
+			in.Label = l
+			b.emit(in)
+			for k := rapid.IntRange(1, 3).Draw(t, "sh"); k > 0; k-- {
+				dataAlu()
+			}
+			b.place(l)
+		case 8:
+			// counted loop of data code and zero-based accesses
+			iters := rapid.Int32Range(1, 4).Draw(t, "iters")
+			b.emit(ref.Ins{Op: "li", Rd: RegCnt, Imm: iters})
+			l := b.label()
+			b.place(l)
+			for k := rapid.IntRange(1, 4).Draw(t, "body"); k > 0; k-- {
+				if rapid.IntRange(0, 2).Draw(t, "lm") == 0 {
+					op := b.memOp(loadOps)
+					b.emit(ref.Ins{Op: op, Rd: pick(data, "rd"), Rs1: 0, Imm: b.addr(ref.AccessSize(op), "ea")})
+				} else {
+					dataAlu()
+				}
+			}
+			b.emit(ref.Ins{Op: "addi", Rd: RegCnt, Rs1: RegCnt, Imm: -1})
+			b.emit(ref.Ins{Op: "bnez", Rs1: RegCnt, Label: l})
+		default:
+			b.emit(ref.Ins{Op: "nop"})
+		}
+	}
+	b.Exit()
+	b.Finish(c)
+	return c, data
+}
